@@ -32,6 +32,30 @@ type rCase struct {
 	Script []rConn `json:"script"`
 	Ops    []rOp   `json:"ops"`
 	Alt    bool    `json:"alt,omitempty"`
+	// SelfTest (corpus only): feed hand-written traces to the Lean Spec checker and require its verdicts,
+	// so that the oracle is known to reject duplicated / skipped bytes, a wrong Range, a short EOF and a
+	// swallowed error on every run.
+	SelfTest bool `json:"selftest,omitempty"`
+}
+
+// retrySelfTest: data "abcdef".  These steps have no Impl column (the driver answers "-"), so the engine
+// files a passing one under `moved-to-spec` (Go = Spec); a wrong verdict of the checker is a violation.
+func retrySelfTest() []Step {
+	data := hex.EncodeToString([]byte("abcdef"))
+	var steps []Step
+	for _, t := range [][3]string{
+		{"good trace", "I200;q- bo r616263:o bf q3 bo r646566:o be r:e", "pass"},
+		{"wrong Range offset", "I200;q- bo r616263:o bf q2 bo r646566:o", "fail:event-4-q2"},
+		{"missing Range", "I200;q- bo r616263:o bf q- bo r646566:o", "fail:event-4-q-"},
+		{"duplicated byte", "I200;q- bo r616263:o bf q3 bo r636465:o", "fail:event-6-r636465:o"},
+		{"skipped byte", "I200;q- bo r616263:o bf q3 bo r6566:o", "fail:event-6-r6566:o"},
+		{"short clean EOF", "I200;q- bo r616263:o be r:e", "fail:event-4-r:e"},
+		{"swallowed error", "I200;q- bf q- bf q- bf r:o", "fail:event-6-r:o"},
+		{"200 without a body for a non-empty file", "P200;q-", "fail:200-without-body-for-nonempty-file"},
+	} {
+		steps = append(steps, Step{Line: "retry.selftest\t" + data + "\t" + t[1], Go: t[2], Desc: "oracle self-test: " + t[0], Tags: []string{"selftest"}, Trivial: true})
+	}
+	return steps
 }
 
 type retrySuite struct{}
@@ -287,6 +311,9 @@ func (retrySuite) Run(raw json.RawMessage) []Step {
 	var c rCase
 	if err := json.Unmarshal(raw, &c); err != nil {
 		return nil
+	}
+	if c.SelfTest {
+		return retrySelfTest()
 	}
 	for _, k := range c.Script {
 		if k.End == "c" && k.Cut >= 0 {
